@@ -1252,6 +1252,12 @@ func RunDispose(seed int64, per int, outDir, prop string, corpus []string) (case
 		all = append(all, DCase{N: 3, Handlers: false, Trigger: "during-queue", Stage: st, Tag: "during-queue-proto",
 			Subs: []string{"when:1", "whenticks:0", "whenqueueends:1"}, Pre: []Op{{Kind: "add", States: []int{0}}}})
 	}
+	// an Eval pending behind a busy handler when Dispose lands, its own timeout short of, about and
+	// far beyond the stages of the disposal
+	for _, ms := range []string{"120", "700", "3000"} {
+		all = append(all, DCase{N: 3, Handlers: ms != "700", Trigger: "eval-pending", Stage: ms, Tag: "eval-pending-fixed",
+			Subs: []string{"when:1", "whenticks:0"}, Pre: []Op{{Kind: "add", States: []int{0}}}})
+	}
 	for _, tr := range Triggers {
 		n := per
 		if tr == "unlock-window" {
